@@ -37,14 +37,14 @@ def run_c07(tier, seed, build):
     if tier == "quick":
         bounds = [["--allocs", "2", "--x", "2", "--w", "1", "--stored", "2"]]
     else:
-        bounds = [["--allocs", "2", "--x", "2", "--w", "2", "--stored", "3"], ["--allocs", "3", "--x", "2", "--w", "1", "--stored", "2"]]
+        bounds = [["--allocs", "2", "--x", "2", "--w", "2", "--stored", "3"], ["--allocs", "3", "--x", "1", "--w", "1", "--stored", "2"]]
     env = dict(os.environ, ASAN_OPTIONS="detect_leaks=0:abort_on_error=1:symbolize=1:detect_stack_use_after_return=0:malloc_context_size=0")
     summaries = []
     status = 0
     lines = []
     for i, b in enumerate(bounds):
         out = os.path.join(TMP, f"c07-{i}-{os.getpid()}.json")
-        cmd = [exe, "explore", "--out", out, "--threads", str(os.cpu_count() or 8)] + b
+        cmd = [exe, "explore", "--out", out, "--threads", str(os.cpu_count() or 8), "--max-secs", "1500", "--max-states", "4000000"] + b
         r = subprocess.run(cmd, cwd=VERIF, env=env, stdout=subprocess.PIPE, stderr=subprocess.PIPE, text=True)
         if r.returncode not in (0, 2) or not os.path.exists(out):
             # the explorer itself died: a memory error or abort inside one of the two
@@ -104,7 +104,7 @@ def run_c07(tier, seed, build):
             "distinct_nontrivial": max(states, 2),
             "rule": "breadth-first over straight-line programs of the API shared with std::rc (27 command kinds incl. six constructors, raw round trips, try_unwrap, get_mut, make_mut, Weak::new), closed under the state of a plain reference-count model; each program is executed on std::rc and on cactusref through one generic interpreter and every observation (return values, counts through every handle incl. stored ones, comparison/hash/format results, destructor order) is compared after every command; distinct_nontrivial = distinct model states",
             "explorations": [
-                {"bounds": s["bounds"], "states": s["states"], "programs": s["programs"], "bfs_depth_completed": s["depth_completed"], "bfs_level_sizes": s["level_sizes"], "exhaustive": s["exhaustive"], "api_commands_exercised": s["api_commands_exercised"], "wall_s": s["wall_s"]}
+                {"bounds": s["bounds"], "states": s["states"], "programs": s["programs"], "bfs_depth_completed": s["depth_completed"], "unexpanded_states_when_capped": s.get("unexpanded_states_when_capped", 0), "bfs_level_sizes": s["level_sizes"], "exhaustive": s["exhaustive"], "api_commands_exercised": s["api_commands_exercised"], "wall_s": s["wall_s"]}
                 for s in summaries
             ],
         },
@@ -198,6 +198,25 @@ def run_c15(tier, seed, build):
             timing[shape] = {"ns_per_member_at_1024": round(per[1024] / 1024, 1), f"ns_per_member_at_{nmax}": round(per[nmax] / nmax, 1), "ratio": round(ratio, 2)}
             if ratio > 12:
                 bad.append(({"shape": shape, "n": nmax, "last": 0, "result": None}, f"collecting a {shape} of {nmax} members takes {ratio:.1f}x longer per member than a {shape} of 1024 (super-linear growth)"))
+    # cliques: time per adoption must not explode either (a worklist that is shifted on
+    # every pop, or any other quadratic step in the number of pending entries, shows here)
+    per = {}
+    for n in (32, 256):
+        best = None
+        for _ in range(3):
+            rr = subprocess.run([exe, "case", "clique", str(n), "0"], cwd=VERIF, stdout=subprocess.PIPE, text=True)
+            try:
+                ns = json.loads(rr.stdout)["final_drop_ns"]
+            except Exception:
+                ns = None
+            if ns is not None and (best is None or ns < best):
+                best = ns
+        per[n] = best
+    if per[32] and per[256]:
+        ratio = (per[256] / (256 * 256)) / (per[32] / (32 * 32))
+        timing["clique"] = {"ns_per_adoption_at_32": round(per[32] / 1024, 1), "ns_per_adoption_at_256": round(per[256] / 65536, 1), "ratio": round(ratio, 2)}
+        if ratio > 12:
+            bad.append(({"shape": "clique", "n": 256, "last": 0, "result": None}, f"collecting a clique of 256 members takes {ratio:.1f}x longer per adoption than a clique of 32 (super-linear growth in the number of adoptions)"))
     status = 0
     lines = []
     for c, why in bad[:5]:
